@@ -32,6 +32,11 @@ pendant network): the run must end (bounded number of tasks / frames) for
 broadcasts, for unicasts on a stale routing loop (256 frames, counts 255..0,
 then silence) and for cold-cache discovery.
 
+Routers that are devices too (an application above the router's NSAP; the
+library makes it a station of the network of its last-bound port) take part as
+sources and destinations in two fixed topologies and 30% of the random trees;
+what goes wrong there is reported under kinds prefixed `router-app-`.
+
 Not in the space (expectation would be stronger than the protocol gives): a
 station that does not know its network number addressing its OWN network in
 the remote form (no router answers Who-Is-Router for the asker's own network).
@@ -42,6 +47,9 @@ import time
 import os
 
 
+ROUTER_APPS = False     # routers that carry their own application are beyond 'stations' in the property text (they have two known gaps, see DESIGN.md
+                        # observations: no path to their other attached networks, no SADR on frames leaving a non-local port); True brings them in
+OVERRUNS = [0]
 KNOWS = ('none', 'addr', 'net+addr', 'learn')
 _K = {'none': 'n', 'addr': 'a', 'net+addr': 'k', 'learn': 'l'}
 
@@ -51,7 +59,8 @@ _K = {'none': 'n', 'addr': 'a', 'net+addr': 'k', 'learn': 'l'}
 def spec_repr(spec):
     nets = ','.join('%d:[%s]' % (n, ' '.join('%d%s' % (a, _K[k]) for a, k in spec['nets'][n])) for n in sorted(spec['nets']))
     rts = ' '.join('-'.join('%d.%d' % (n, a) for n, a in ports) for ports in spec['routers'])
-    return "nets{%s} routers[%s]%s" % (nets, rts, ' announce' if spec.get('announce') else '')
+    apps = ' apps on routers %s' % sorted(spec['router_apps']) if spec.get('router_apps') else ''
+    return "nets{%s} routers[%s]%s%s" % (nets, rts, apps, ' announce' if spec.get('announce') else '')
 
 
 def spec_size(spec):
@@ -72,6 +81,8 @@ def star(ports, stations=1, knows='none'):
 def with_knows(spec, pattern):
     """pattern: a knows value, or 'mixed' (cycled over the stations)"""
     out = {'nets': {}, 'routers': [list(p) for p in spec['routers']]}
+    if spec.get('router_apps'):
+        out['router_apps'] = tuple(spec['router_apps'])
     i = 0
     for n in sorted(spec['nets']):
         out['nets'][n] = []
@@ -96,6 +107,15 @@ def fixed_topologies():
     t = {'nets': {7: [(1, 'none')], 65534: [(2, 'none'), (254, 'none')], 300: [(3, 'none')]},
          'routers': [[(7, 200), (65534, 201)], [(65534, 202), (300, 203)]]}
     tops.append(('bignum', t))
+    if not ROUTER_APPS:
+        return tops
+    # routers that are devices too (an application above the router's NSAP)
+    t = line(3, 1)
+    t['router_apps'] = (0, 1)
+    tops.append(('line3-apps', t))
+    t = star(3, 1)
+    t['router_apps'] = (0,)
+    tops.append(('star3-app', t))
     return tops
 
 
@@ -130,6 +150,8 @@ def random_tree(rng):
             used[x].add(addr)
             st.append((addr, rng.choice(KNOWS) if pattern == 'mixed' else pattern))
         spec['nets'][x] = sorted(st)
+    if ROUTER_APPS and rng.random() < 0.3:
+        spec['router_apps'] = tuple(sorted(rng.sample(range(len(routers)), rng.randint(1, min(2, len(routers))))))
     return spec
 
 
@@ -158,7 +180,12 @@ def net_distance(spec):
 # --------------------------------------------------------------------------- traffic
 
 def station_list(spec):
-    return [(n, a, k) for n in sorted(spec['nets']) for a, k in spec['nets'][n]]
+    """(network, address, binding, is a router's application) in the order of Internetwork.apps"""
+    st = [(n, a, k, False) for n in sorted(spec['nets']) for a, k in spec['nets'][n]]
+    for i in spec.get('router_apps', ()):
+        n, a = spec['routers'][i][-1]           # the library's "local adapter": the last port bound
+        st.append((n, a, 'net+addr', True))
+    return st
 
 
 def all_items(spec):
@@ -166,9 +193,9 @@ def all_items(spec):
     st = station_list(spec)
     nets = sorted(spec['nets'])
     items = []
-    for si, (sn, sa, sk) in enumerate(st):
+    for si, (sn, sa, sk, sra) in enumerate(st):
         aware = sk in ('net+addr', 'learn')
-        for ti, (tn, ta, tk) in enumerate(st):
+        for ti, (tn, ta, tk, tra) in enumerate(st):
             if ti == si:
                 continue
             if tn == sn:
@@ -193,7 +220,7 @@ def all_items(spec):
 def item_repr(spec, item):
     st = station_list(spec)
     si, kind, tgt = item
-    src = '%d:%d' % st[si][:2]
+    src = '%d:%d' % st[si][:2] + ('(router app)' if st[si][3] else '')
     if kind == 'u':
         t = st[tgt[0]]
         return "%s>%s" % (src, ('%d' % t[1]) if tgt[1] == 'l' else '%d:%d' % t[:2])
@@ -211,12 +238,13 @@ def item_repr(spec, item):
 class Runner(object):
     """builds the internetwork of `spec` and pushes items through it"""
 
-    def __init__(self, spec, max_steps=20000):
+    def __init__(self, spec, max_steps=5000):
+        # the largest loop-free run that ends (8 networks, cold discovery plus a global broadcast) takes a few hundred tasks
         from bounded.net_sim import Sim, Internetwork
         self.spec = spec
         self.sim = Sim(max_steps=max_steps)
         self.net = Internetwork(self.sim, spec)
-        self.st = self.net.stations
+        self.st = self.net.apps
         self.mid = 0
         self.problems = []          # (kind, detail)
         self.evaluations = 0
@@ -236,8 +264,9 @@ class Runner(object):
     def close(self):
         self.sim.close()
 
-    def problem(self, kind, detail):
-        self.problems.append((kind, detail))
+    def problem(self, kind, detail, ra=False):
+        # ra: the originator or the recipient concerned is a router's own application
+        self.problems.append((('router-app-' if ra else '') + kind, detail))
 
     def dest_of(self, item):
         from bacpypes.pdu import LocalStation, RemoteStation, LocalBroadcast, RemoteBroadcast, GlobalBroadcast
@@ -277,6 +306,8 @@ class Runner(object):
         from bounded.net_sim import SimOverrun
         sim = self.sim
         sent = []
+        if OVERRUNS[0] >= 3:
+            return False            # three runs of this process did not end: the rest is not attempted (each costs max_steps tasks)
         first_frame = len(sim.frames)
         for item in items:
             self.mid += 1
@@ -286,7 +317,8 @@ class Runner(object):
         try:
             sim.settle()
         except SimOverrun as e:
-            self.problem('tree-no-termination', "%s: the run did not end: %s (%d frames)" % (' '.join(item_repr(self.spec, i) for i in items), e, len(sim.frames)))
+            OVERRUNS[0] += 1
+            self.problem('tree-no-termination', "%s: the run did not end: %s (%d frames), the last ones %s" % (' '.join(item_repr(self.spec, i) for i in items), e, len(sim.frames), '; '.join(repr(f) for f in sim.frames[-4:])))
             return False
         self.stack_errors(' '.join(item_repr(self.spec, i) for i in items))
         for item, payload in sent:
@@ -307,20 +339,22 @@ class Runner(object):
                 try:
                     sim.settle()
                 except SimOverrun as e:
+                    OVERRUNS[0] += 1
                     self.problem('tree-no-termination', "reply of %s to %s: the run did not end: %s" % (r, item_repr(self.spec, item), e))
                     return False
                 self.stack_errors("reply of %s to %s" % (r, item_repr(self.spec, item)))
                 self.evaluations += 1
+                ra = origin.is_router or r.is_router
                 for qi, q in enumerate(self.st):
                     n = [g for g in q.app.got if g[0] == rp]
                     if qi == item[0]:
                         if len(n) != 1:
                             self.problem('reply-not-delivered' if not n else 'reply-duplicated',
-                                         "%s: %s was shown source %s; its reply to that address reached the originator %d times" % (item_repr(self.spec, item), r, got[0][1], len(n)))
+                                         "%s: %s was shown source %s; its reply to that address reached the originator %d times" % (item_repr(self.spec, item), r, got[0][1], len(n)), ra)
                         elif not self.source_ok(n[0][1], r, q):
-                            self.problem('reply-source-address', "%s: the reply of %s is shown to the originator as coming from %s" % (item_repr(self.spec, item), r, n[0][1]))
+                            self.problem('reply-source-address', "%s: the reply of %s is shown to the originator as coming from %s" % (item_repr(self.spec, item), r, n[0][1]), ra)
                     elif n:
-                        self.problem('reply-misdelivered', "%s: the reply of %s to the shown source %s reached %s (%d times)" % (item_repr(self.spec, item), r, got[0][1], q, len(n)))
+                        self.problem('reply-misdelivered', "%s: the reply of %s to the shown source %s reached %s (%d times)" % (item_repr(self.spec, item), r, got[0][1], q, len(n)), ra or q.is_router)
                 self.check_frames(f0)
         return True
 
@@ -337,19 +371,20 @@ class Runner(object):
         label = {'u': 'unicast', 'rb': 'remote-broadcast', 'gb': 'global-broadcast', 'lb': 'local-broadcast', 'ug': 'unicast-to-absent'}[kind]
         for i, r in enumerate(self.st):
             got = [g for g in r.app.got if g[0] == payload]
+            ra = origin.is_router or r.is_router
             if i == item[0]:
                 if got:
-                    self.problem(label + '-back-to-sender', "%s: the sender's own application received it %d times" % (item_repr(self.spec, item), len(got)))
+                    self.problem(label + '-back-to-sender', "%s: the sender's own application received it %d times" % (item_repr(self.spec, item), len(got)), ra)
                 continue
             if i in want:
                 if not got:
-                    self.problem(label + '-not-delivered', "%s: %s did not receive it" % (item_repr(self.spec, item), r))
+                    self.problem(label + '-not-delivered', "%s: %s did not receive it" % (item_repr(self.spec, item), r), ra)
                 elif len(got) > 1:
-                    self.problem(label + '-duplicated', "%s: %s received it %d times" % (item_repr(self.spec, item), r, len(got)))
+                    self.problem(label + '-duplicated', "%s: %s received it %d times" % (item_repr(self.spec, item), r, len(got)), ra)
                 if got and not all(self.source_ok(g[1], origin, r) for g in got):
-                    self.problem(label + '-source-address', "%s: %s is shown source %s" % (item_repr(self.spec, item), r, [str(g[1]) for g in got]))
+                    self.problem(label + '-source-address', "%s: %s is shown source %s" % (item_repr(self.spec, item), r, [str(g[1]) for g in got]), ra)
             elif got:
-                self.problem(label + '-misdelivered', "%s: %s received it (%d times) and should not have" % (item_repr(self.spec, item), r, len(got)))
+                self.problem(label + '-misdelivered', "%s: %s received it (%d times) and should not have" % (item_repr(self.spec, item), r, len(got)), ra)
 
     def check_frames(self, start):
         frames = self.sim.frames
@@ -358,12 +393,11 @@ class Runner(object):
         for f in frames[start:]:
             if f.netmsg is not None:
                 continue
-            if f.cause is None or not f.sender.is_router:
-                if f.dadr is not None and f.hops != 255 and not f.sender.is_router:
-                    self.problem('initial-hop-count', "frame %r leaves its originator with hop count %r" % (f, f.hops))
-                continue
-            p = by.get(f.cause)
+            p = by.get(f.cause) if f.cause is not None and f.sender.is_router else None
             if p is None or p.netmsg is not None:
+                # an application's own message: sent at once, or released from the pending list by an I-Am-Router-To-Network
+                if f.dadr is not None and f.hops != 255:
+                    self.problem('initial-hop-count', "frame %r leaves its originator with hop count %r" % (f, f.hops), f.sender.is_router)
                 continue
             offspring.setdefault(p.serial, []).append(f)
             if f.net == p.net:
@@ -562,6 +596,8 @@ def run(tier, seed):
         spec, mode, items, burst = args
         evaluations += ev
         for kind, detail, repro in probs:
+            if kind in failures and failures[kind][0] <= spec_size(spec) + (1, 0):
+                continue            # a scenario at least as small is on record for this kind
             rep = repro
             how = mode
             if mode != 'cold' and repro:
@@ -573,7 +609,9 @@ def run(tier, seed):
                 same = [x for x in p2 if x[0] == kind]
                 if same:
                     rep, how, detail = repro[-1:], 'cold', same[0][1]
-            inp = "%s; caches %s; traffic %s" % (spec_repr(spec), how + ('' if burst == 1 else ' burst %d' % burst), ' '.join(item_repr(spec, i) for i in rep[-6:]))
+            if how != 'cold' and burst != 1:
+                how += ' burst %d' % burst
+            inp = "%s; caches %s; traffic %s" % (spec_repr(spec), how, ' '.join(item_repr(spec, i) for i in rep[-6:]))
             fail(kind, inp, spec_size(spec) + (len(rep), len(inp)), detail)
 
     def classify(spec, mode, items):
@@ -631,7 +669,7 @@ def run(tier, seed):
     if workers > 1:
         import multiprocessing
         with multiprocessing.get_context('fork').Pool(workers) as pool:
-            for ev, probs, args in pool.imap_unordered(_job, jobs, chunksize=8):
+            for ev, probs, args in pool.imap(_job, jobs, chunksize=8):
                 absorb(ev, probs, args)
                 scenarios += 1
     else:
